@@ -10,7 +10,7 @@ AVOID_SCHEMA = probes.masked_schema_features('C01') | probes.masked_schema_featu
 AVOID_POP = probes.masked_pop_features('C01') | probes.masked_pop_features('C10')
 HARN = ['lazymon.cc']
 import os
-VARIANTS = (os.environ.get('VERIF_DBG_VARIANTS') or 'compact,spaced,cmt_structural,lines,cmt_before_top').split(',')
+VARIANTS = [v for v in (os.environ.get('VERIF_DBG_VARIANTS') or 'compact,spaced,cmt_between,lines').split(',') if v not in probes.masked_variants('C10')]
 
 
 def unhex(h):
@@ -162,7 +162,7 @@ def judge(chk, lib, pop, text, order, variant):
 def cover(chk, lib, pop, variant):
     for i in pop.insts:
         nrefs = len(set(ref_p21.inst_refs(i)))
-        chk.seen('complex' if i.complex else 'simple', min(nrefs, 3), variant if variant.startswith('cmt') else 'plain')
+        chk.seen(lib.schema.name, '+'.join(sorted(k for k, _v in i.parts)), min(nrefs, 3))
     if any(i.id in ref_p21.inst_refs(i) for i in pop.insts):
         chk.tag('self reference')
     chk.tag('variant:' + variant)
@@ -199,7 +199,7 @@ def main(chk):
     run_lazy_probes(chk, 'C10')
     return chk.finish(
         rule='seeded conforming populations (reference cycles, complex instances, comments and strings containing # ( ; ) in text variants; each loaded in forward, reverse '
-             'and shuffled double orders; distinct_nontrivial = distinct (simple/complex, number of distinct references capped at 3, plain/comment variant)',
+             'and shuffled double orders; distinct_nontrivial = distinct (schema, entity keyword(s) of the instance, number of distinct references capped at 3) among the instances indexed and loaded',
         assumptions=['cases where the eager read is not clean are skipped (C01 judges those)', 'masks inherited from C01',
                      'dependency set compared without the instance itself (reflexive-free)'])
 
